@@ -40,10 +40,10 @@ PROPS = {
  ),
  "C03": dict(
     level="proof",
-    claim="Proof of NumPy's shape law, source-index law and element law for transpose (default and compile-time axes), moveaxis and swapaxes (compile-time axes incl. negative) at ranks 1..4 for every extent and index, and the same laws for run-time axes (transpose with a run-time permutation, moveaxis with run-time ints) and for arrays whose shape is a bounded run-time-length static_vector (the library's run-time-loop branches); reshape (run-time target shape), flatten and expand_dims keep C order in closed form (source index = unravel(ravel(dst, dst_shape), src_shape)) with the requested / NumPy shape, ranks up to 3x3; shape laws of shape_reshape incl. one -1, expand_dims and atleast_nd at index level; shape_squeeze keeps exactly the non-1 extents in order for every pattern of single extents at ranks 1..4 (view::squeeze is reshape to that shape); flip_slices reverses exactly the requested axes (scalar, list incl. negative entries, None; ranks 1..4) - the element law of flip then rests on the slicing of C05, which is not decided; moveaxis with several axes: the permutation is NumPy's for EVERY pair of duplicate-free axis lists of length 2 (ranks 3, 4, entries non-negative or negative; length 3 at rank 4 in the thorough tier) - exhaustive, since the function depends only on rank and lists. (E1 view level, constant small shapes with symbolic element values: c03g_views) shape and every element of flip (None / one axis / negative axis / axis lists, flip twice), flipud/fliplr, squeeze, atleast_1d/2d/nd, reshape (ct and run-time target, one -1 in either position), flatten, transpose (default, run-time and ct permutations, permutation then inverse), moveaxis, swapaxes (negative axes) and expand_dims (one axis, negative, axis list) equal NumPy's definition written against the source array.",
+    claim="Proof of NumPy's shape law, source-index law and element law for transpose (default and compile-time axes), moveaxis and swapaxes (compile-time axes incl. negative) at ranks 1..4 for every extent and index, and the same laws for run-time axes (transpose with a run-time permutation, moveaxis with run-time ints) and for arrays whose shape is a bounded run-time-length static_vector (the library's run-time-loop branches); reshape (run-time target shape), flatten and expand_dims keep C order in closed form (source index = unravel(ravel(dst, dst_shape), src_shape)) with the requested / NumPy shape, ranks up to 3x3; shape laws of shape_reshape incl. one -1, expand_dims and atleast_nd at index level; shape_squeeze keeps exactly the non-1 extents in order for every pattern of single extents at ranks 1..4 (view::squeeze is reshape to that shape); flip_slices reverses exactly the requested axes (scalar, list incl. negative entries, None; ranks 1..4) - the element law of flip then rests on the slicing of C05, which is not decided; moveaxis with several axes: the permutation is NumPy's for EVERY pair of duplicate-free axis lists of length 2 (ranks 3, 4, entries non-negative or negative; length 3 at rank 4 in the thorough tier) - exhaustive, since the function depends only on rank and lists. (E1 view level, constant small shapes with symbolic element values: c03g_views) shape and every element of flip (None / one axis / negative axis / axis lists, flip twice), flipud/fliplr, squeeze, atleast_1d/2d/nd, reshape (ct and run-time target, one -1 in either position), flatten, transpose (default, run-time and ct permutations, permutation then inverse), moveaxis, swapaxes (negative axes) and expand_dims (one axis, negative, axis list) equal NumPy's definition written against the source array. The same view-level obligations are also decided on fixed-dimension arrays whose shape is a RUN-TIME value (std::array<size_t,R> shape pinned to the listed extents by ASSUME): the library's run-time branches (loops over len(shape), maybe-typed results that must have a value).",
     note=E1_NOTE,
     technique=E1_TECH,
-    e1=[dict(tu="c03_rearrange.cpp"), dict(tu="c03b_dynamic.cpp"), dict(tu="c03c_reshape.cpp"), dict(tu="c15_args.cpp"), dict(tu="c02_capacity.cpp"), dict(tu="c03d_squeeze.cpp"), dict(tu="c03e_flip.cpp"), dict(tu="c03f_moveaxis_multi.cpp"), dict(tu="c03g_views.cpp")],
+    e1=[dict(tu="c03_rearrange.cpp"), dict(tu="c03b_dynamic.cpp"), dict(tu="c03c_reshape.cpp"), dict(tu="c15_args.cpp"), dict(tu="c02_capacity.cpp"), dict(tu="c03d_squeeze.cpp"), dict(tu="c03e_flip.cpp"), dict(tu="c03f_moveaxis_multi.cpp"), dict(tu="c03g_views.cpp"), dict(tu="c03g_views_rt.cpp")],
     e2=[dict(rule="R-AXISNORM"), dict(rule="R-PARAMUSE"), dict(rule="R-CONSTBRANCH", anchors=True)],
     rule=E1_RULE + "; E2: one instance per comparison of a position with an axis-valued expression in the anchor files (R-AXISNORM)",
     explanation="expected shape and source index are written from NumPy's definitions in the driver; the element law is equality of the bits loaded through the view and through the source at the expected index.",
@@ -52,10 +52,10 @@ PROPS = {
  ),
  "C04": dict(
     level="proof",
-    claim="Proof of shape law, source-index law and element law for tile (reps of equal and greater length), repeat along an axis (scalar repeats, incl. negative axis) and roll along an axis for EVERY shift magnitude and sign, ranks 1..3, every extent and index (compile-time and run-time axes); concatenate at index level: result shape (summed extent on the axis, failure exactly when another extent differs), and for every destination index which operand and which source index is read, run-time axis incl. negative; pad (shape = source + both widths; a coordinate maps to the source exactly outside the padding, view::pad reads the source element or the fill value); tril/triu (kept side exactly col-row <= k resp. >= k, identity index, 1-d source used as every row); eye (fill exactly on the k-th diagonal); expand (axis extent s+(s-1)*spacing; multiples of spacing+1 map to coordinate/(spacing+1), everything else is a fill position; run-time axis incl. negative); take along a run-time axis incl. negative (shape; source coordinate = listed entry, a negative entry counted from the end, inside the extent); diagonal for either sign of the offset (shape incl. diagonal length, both diagonal coordinates inside their extents, other coordinates in order); sliding_window (windowed axes shrink by w-1, window extents appended, source = position + offset; scalar window on a run-time axis incl. negative, and one window per axis); sibling side-consistency of paired locals in the anchor files (R-PAIR). The remaining operations of the property are not decided. where(c,x,y) on three differently shaped constant-shape operands has the broadcast shape and selects x or y by the broadcast condition at every index. (E1 view level, constant small shapes with symbolic element values: c04i_views, c04j_views) shape and every element of tile (short/long reps), repeat (axis, negative axis, no axis, per-element repeats incl. 0), roll (beyond-extent and negative shifts, negative axis, no axis, several axes), take (negative / repeated entries, negative axis), compress (constant condition), concatenate (axis, negative axis, operand order, no axis), stack / hstack / vstack / dstack / column_stack (matrices and vectors), split (sections and indices), sliding_window (all axes, one axis), diagonal (offsets of either sign, chosen and negative axes on rank 3), diagflat, tril / triu (k of either sign, batches), eye / identity / tri, full / zeros / ones (_like), arange on an integer grid, pad (per-side widths), resize (nearest neighbour) and expand (spacing, negative axis, several axes) equal the definition written against the source array.",
+    claim="Proof of shape law, source-index law and element law for tile (reps of equal and greater length), repeat along an axis (scalar repeats, incl. negative axis) and roll along an axis for EVERY shift magnitude and sign, ranks 1..3, every extent and index (compile-time and run-time axes); concatenate at index level: result shape (summed extent on the axis, failure exactly when another extent differs), and for every destination index which operand and which source index is read, run-time axis incl. negative; pad (shape = source + both widths; a coordinate maps to the source exactly outside the padding, view::pad reads the source element or the fill value); tril/triu (kept side exactly col-row <= k resp. >= k, identity index, 1-d source used as every row); eye (fill exactly on the k-th diagonal); expand (axis extent s+(s-1)*spacing; multiples of spacing+1 map to coordinate/(spacing+1), everything else is a fill position; run-time axis incl. negative); take along a run-time axis incl. negative (shape; source coordinate = listed entry, a negative entry counted from the end, inside the extent); diagonal for either sign of the offset (shape incl. diagonal length, both diagonal coordinates inside their extents, other coordinates in order); sliding_window (windowed axes shrink by w-1, window extents appended, source = position + offset; scalar window on a run-time axis incl. negative, and one window per axis); sibling side-consistency of paired locals in the anchor files (R-PAIR). The remaining operations of the property are not decided. where(c,x,y) on three differently shaped constant-shape operands has the broadcast shape and selects x or y by the broadcast condition at every index. (E1 view level, constant small shapes with symbolic element values: c04i_views, c04j_views) shape and every element of tile (short/long reps), repeat (axis, negative axis, no axis, per-element repeats incl. 0), roll (beyond-extent and negative shifts, negative axis, no axis, several axes), take (negative / repeated entries, negative axis), compress (constant condition), concatenate (axis, negative axis, operand order, no axis), stack / hstack / vstack / dstack / column_stack (matrices and vectors), split (sections and indices), sliding_window (all axes, one axis), diagonal (offsets of either sign, chosen and negative axes on rank 3), diagflat, tril / triu (k of either sign, batches), eye / identity / tri, full / zeros / ones (_like), arange on an integer grid, pad (per-side widths), resize (nearest neighbour) and expand (spacing, negative axis, several axes) equal the definition written against the source array. The same view-level obligations are also decided on fixed-dimension arrays whose shape is a RUN-TIME value (std::array<size_t,R> shape pinned to the listed extents by ASSUME): the library's run-time branches (loops over len(shape), maybe-typed results that must have a value).",
     note=E1_NOTE,
     technique=E1_TECH,
-    e1=[dict(tu="c04_select.cpp"), dict(tu="c03b_dynamic.cpp"), dict(tu="c04b_concat.cpp"), dict(tu="c15b_pad_matmul.cpp"), dict(tu="c02c_padview.cpp"), dict(tu="c04d_tri.cpp"), dict(tu="c04e_window.cpp"), dict(tu="c04c_take.cpp"), dict(tu="c04f_diagonal.cpp"), dict(tu="c04g_expand.cpp"), dict(tu="c04h_cumsum.cpp"), dict(tu="c07c_where.cpp"), dict(tu="c04i_views.cpp"), dict(tu="c04j_views.cpp")],
+    e1=[dict(tu="c04_select.cpp"), dict(tu="c03b_dynamic.cpp"), dict(tu="c04b_concat.cpp"), dict(tu="c15b_pad_matmul.cpp"), dict(tu="c02c_padview.cpp"), dict(tu="c04d_tri.cpp"), dict(tu="c04e_window.cpp"), dict(tu="c04c_take.cpp"), dict(tu="c04f_diagonal.cpp"), dict(tu="c04g_expand.cpp"), dict(tu="c04h_cumsum.cpp"), dict(tu="c07c_where.cpp"), dict(tu="c04i_views.cpp"), dict(tu="c04j_views.cpp"), dict(tu="c04i_views_rt.cpp"), dict(tu="c04j_views_rt.cpp"), dict(tu="c07c_where_rt.cpp")],
     e2=[dict(rule="R-PAIR"), dict(rule="R-AXISNORM"), dict(rule="R-PARAMUSE"), dict(rule="R-CONSTBRANCH", anchors=True)],
     e3=[dict(group="C04")],
     rule=E1_RULE,
@@ -65,10 +65,10 @@ PROPS = {
  ),
  "C06": dict(
     level="proof",
-    claim="Proof that pairwise broadcast_shape is sound and complete w.r.t. NumPy's rule (value exactly when all right-aligned pairs are equal-or-1, then the per-axis maximum) for all rank pairs up to 3x3 (thorough 4x4) and every extent - hence order independent -, idempotent, None-neutral, that the variadic form is the left fold of the pairwise rule, and for view::broadcast_to (source ranks 1..3 into target ranks 1..3, every stretch pattern): value exactly when each source extent is 1 or equals the right-aligned target extent, shape = target, source index inside the source shape, stretched axes read source index 0 (kept axes: proved for rank-1 sources only); associativity is not decided. (E1, constant small shapes with symbolic integer elements) view::broadcast_to and view::broadcast_arrays have the requested / common shape and read, at every index, the source element with stretched axes at 0 and prepended axes dropped; the binary ufunc view reads its operands the same way.",
+    claim="Proof that pairwise broadcast_shape is sound and complete w.r.t. NumPy's rule (value exactly when all right-aligned pairs are equal-or-1, then the per-axis maximum) for all rank pairs up to 3x3 (thorough 4x4) and every extent - hence order independent -, idempotent, None-neutral, that the variadic form is the left fold of the pairwise rule, and for view::broadcast_to (source ranks 1..3 into target ranks 1..3, every stretch pattern): value exactly when each source extent is 1 or equals the right-aligned target extent, shape = target, source index inside the source shape, stretched axes read source index 0 (kept axes: proved for rank-1 sources only); associativity is not decided. (E1, constant small shapes with symbolic integer elements) view::broadcast_to and view::broadcast_arrays have the requested / common shape and read, at every index, the source element with stretched axes at 0 and prepended axes dropped; the binary ufunc view reads its operands the same way. The same view-level obligations are also decided on fixed-dimension arrays whose shape is a RUN-TIME value (std::array<size_t,R> shape pinned to the listed extents by ASSUME): the library's run-time branches (loops over len(shape), maybe-typed results that must have a value).",
     note=E1_NOTE,
     technique=E1_TECH,
-    e1=[dict(tu="c06_broadcast.cpp"), dict(tu="c06b_broadcast_to.cpp"), dict(tu="c07_outer_misc.cpp"), dict(tu="c06c_bcastview.cpp"), dict(tu="c07b_bcast.cpp")],
+    e1=[dict(tu="c06_broadcast.cpp"), dict(tu="c06b_broadcast_to.cpp"), dict(tu="c07_outer_misc.cpp"), dict(tu="c06c_bcastview.cpp"), dict(tu="c07b_bcast.cpp"), dict(tu="c06c_bcastview_rt.cpp"), dict(tu="c07b_bcast_rt.cpp")],
     e2=[dict(rule="R-PARAMUSE"), dict(rule="R-CONSTBRANCH", anchors=True), dict(rule="R-MAYBE.broadcast")],
     rule=E1_RULE,
     explanation="soundness and completeness are stated per first incompatible aligned axis (nested case split with the call inside each case).",
@@ -131,10 +131,10 @@ PROPS = {
 
 PROPS["C07"] = dict(
     level="other",
-    claim="For every ufunc and single-expression activation (74 names) the scalar operation in the op type equals the reviewed NumPy/PyTorch oracle table with operands in order; view::X/reduce_X/accumulate_X/outer_X construct the ufunc with the op of the same name and pass operands in order; ufunc/outer views apply op to the operands' elements in tuple order; (E1) the outer variant has shape shape(a)+shape(b) and splits result index (i,j) into the leading len(a) and trailing len(b) coordinates, for all values. The broadcast element law itself is not decided. (E1, constant small shapes with symbolic integer elements) the element of a binary / comparison / unary / where view at every index equals the scalar operation on the operands' elements under NumPy broadcasting, operands in order, for 11 operand-shape combinations of ranks 1..3 (rank extension on either side, size-1 middle axes, (1,1), scalar operands on either side, a transposed view and a chained ufunc as operands); the outer variant's element and shape.",
+    claim="For every ufunc and single-expression activation (74 names) the scalar operation in the op type equals the reviewed NumPy/PyTorch oracle table with operands in order; view::X/reduce_X/accumulate_X/outer_X construct the ufunc with the op of the same name and pass operands in order; ufunc/outer views apply op to the operands' elements in tuple order; (E1) the outer variant has shape shape(a)+shape(b) and splits result index (i,j) into the leading len(a) and trailing len(b) coordinates, for all values. The broadcast element law itself is not decided. (E1, constant small shapes with symbolic integer elements) the element of a binary / comparison / unary / where view at every index equals the scalar operation on the operands' elements under NumPy broadcasting, operands in order, for 11 operand-shape combinations of ranks 1..3 (rank extension on either side, size-1 middle axes, (1,1), scalar operands on either side, a transposed view and a chained ufunc as operands); the outer variant's element and shape. The same view-level obligations are also decided on fixed-dimension arrays whose shape is a RUN-TIME value (std::array<size_t,R> shape pinned to the listed extents by ASSUME): the library's run-time branches (loops over len(shape), maybe-typed results that must have a value).",
     note=E2_NOTE,
     technique=E2_TECH,
-    e1=[dict(tu="c07_outer_misc.cpp"), dict(tu="c07b_bcast.cpp"), dict(tu="c07c_where.cpp")],
+    e1=[dict(tu="c07_outer_misc.cpp"), dict(tu="c07b_bcast.cpp"), dict(tu="c07c_where.cpp"), dict(tu="c07b_bcast_rt.cpp"), dict(tu="c07c_where_rt.cpp")],
     e2=[dict(rule="R-UFUNC")],
     rule="E2: one instance per op call operator (R-UFOP), per view-level ufunc entry point (R-UFWD), per ufunc-view application site (R-UFAPPLY); distinct by qualified function; non-trivial = the function has a body with a return",
     explanation="Name -> scalar operation and operand order are structural facts of the op types and forwarding functions; they are compared with an oracle table and with the function's own parameter list.",
@@ -235,10 +235,10 @@ PROPS["C08"] = dict(
 HOOK_COMMITS = []
 PROPS["C16"] = dict(
     level="other",
-    claim="Partial, small scope: for operands of CONSTANT small shape with symbolic integer element values, the element of view::matmul is the sum of products over exactly the contracted index with NumPy's result shape - 2-d operands (1,1,1) (2,2,2) (2,3,2) (3,2,4) (1,4,3) (3,3,1) and batched operands incl. a broadcast batch axis on either side - and trace is the sum of the diagonal; in the thorough tier also matmulv2 (the tile/reshape/transpose/multiply/sum pipeline), dot / inner / vecdot of vectors, outer, kron (2,2)x(2,2) and tensordot with one contracted axis. Every operation of the view pipeline is compiled for those shapes and folded by LLVM, the values stay symbolic. Larger or run-time shapes, 1-d operand promotion in matmul, tensordot with explicit axis lists and floating-point data are not decided.",
+    claim="Partial, small scope: for operands of CONSTANT small shape with symbolic integer element values, the element of view::matmul is the sum of products over exactly the contracted index with NumPy's result shape - 2-d operands (1,1,1) (2,2,2) (2,3,2) (3,2,4) (1,4,3) (3,3,1) and batched operands incl. a broadcast batch axis on either side - and trace is the sum of the diagonal; in the thorough tier also matmulv2 (the tile/reshape/transpose/multiply/sum pipeline), dot / inner / vecdot of vectors, outer, kron (2,2)x(2,2) and tensordot with one contracted axis. Every operation of the view pipeline is compiled for those shapes and folded by LLVM, the values stay symbolic. Larger or run-time shapes, 1-d operand promotion in matmul, tensordot with explicit axis lists and floating-point data are not decided. (c16b_runtime) on fixed-dimension arrays with run-time shapes: matmul (2-d, batched with a broadcast batch axis), dot (vector.vector, vector.matrix, matrix.vector), inner, vecdot, outer, tensordot(1), trace (2-d and rank 3 with default axes) have a value and equal the defining sums.",
     note=E1_NOTE + " The shapes are compile-time constants (tuple of meta::ct), i.e. the constant-shape branch of every index function on the path is what is proved; the run-time-shape branches of the same pipelines are covered only as far as C01-C08 cover the individual index functions.",
     technique=E1_TECH + " on view pipelines of constant shape (symbolic values)",
-    e1=[dict(tu="c16_linalg.cpp")],
+    e1=[dict(tu="c16_linalg.cpp"), dict(tu="c16b_runtime.cpp")],
     rule=E1_RULE,
     explanation="expected element written as the nested sum a(i,0)*b(0,j) + a(i,1)*b(1,j) + ... in index order; integer arithmetic wraps identically on both sides (-fwrapv), so the equality is exact for every value.",
     not_decided="run-time shapes, shapes beyond the listed ones, 1-d promotion in matmul, tensordot with axis lists, floating point",
